@@ -28,6 +28,7 @@ func main() {
 	repo := fs.String("repo", "/repo", "path of the repository (translator)")
 	k3 := fs.Bool("k3", false, "generators also use text that is not valid UTF-8 (known finding K3)")
 	conc := fs.Int("conc", 0, "node profile: number of background query goroutines")
+	kind := fs.String("kind", "", "node profile: fix the inner generator (aol, pnft, burn, did)")
 	twin := fs.Bool("twin", false, "aollist profile: run a twin replica beside the chain and compare application hashes")
 	must(fs.Parse(os.Args[2:]))
 	if *out == "" {
@@ -35,6 +36,7 @@ func main() {
 		os.Exit(2)
 	}
 	genK3 = *k3
+	nodeKind = *kind
 	app.SetConfig()
 	switch profile {
 	case "gen":
